@@ -116,6 +116,7 @@ static uint32_t imm_value(Rng& rng) {
 }
 
 // ------------------------------------------------------------------------------------------------
+static bool g_grid = false; static uint64_t g_gridA, g_gridB;
 static uint32_t g_forceImm = 0; static bool g_useForceImm = false; static int g_forceDst = -1;
 static void step(Rng& rng, uint8_t opcode, bool v2, int force) {
 	State s; random_state(rng, s);
@@ -129,7 +130,8 @@ static void step(Rng& rng, uint8_t opcode, bool v2, int force) {
 	uint32_t imm = g_useForceImm ? g_forceImm : imm_value(rng); memcpy(w + 4, &imm, 4);
 	if (g_forceDst >= 0) w[1] = (uint8_t)(g_forceDst | (rng.next() & 0xf8));
 	// make address registers often small so that all scratchpad levels are hit with distinguishable addresses
-	if (rng.below(2)) s.r[w[2] & 7] = (uint64_t)(rng.next() & 0x3fffff);
+	if (!g_grid && rng.below(2)) s.r[w[2] & 7] = (uint64_t)(rng.next() & 0x3fffff);
+	if (g_grid) { w[1] = 0; w[2] = 1; s.r[0] = g_gridA; s.r[1] = g_gridB; }
 	if (force == 4) { // CBRANCH: make the condition bits of dst+cimm zero with probability ~1/2
 		int b = (w[3] >> 4) + 8; uint64_t cimm = (uint64_t)(int64_t)(int32_t)imm | (1ull << b); cimm &= ~(1ull << (b - 1));
 		uint64_t want = rng.next() & ~(255ull << b); if (rng.below(2)) want |= (uint64_t)(1 + rng.below(255)) << b;
@@ -217,6 +219,16 @@ int main(int argc, char** argv) {
 			if (op == 239) for (int k = 0; k < (thorough ? 200 : 40); ++k) step(rng, (uint8_t)op, (k & 1) != 0, 0);   // CFROUND: one opcode, many rotate counts / guards
 			if (op >= 76 && op <= 83) for (int k = 0; k < (thorough ? 20 : 4); ++k) step(rng, (uint8_t)op, false, 0);  // IMUL_RCP: more immediates (incl. powers of two)
 		}
+	}
+	if (part == "mulgrid" || part == "all") { // high multiplication: full grid of carry-chain corner operands (32x32 partial products)
+		static const uint32_t G[] = { 0, 1, 2, 0x7fffffffu, 0x80000000u, 0xffffffffu, 0xfffffffeu, 0x80000001u };
+		for (int a = 0; a < 64; ++a) for (int b = 0; b < 64; ++b) {
+			uint64_t x = ((uint64_t)G[a >> 3] << 32) | G[a & 7], y = ((uint64_t)G[b >> 3] << 32) | G[b & 7];
+			g_gridA = x; g_gridB = y; g_grid = true;
+			step(rng, (uint8_t)(((a + b) & 1) ? 66 : 71), false, 0);
+			if (thorough || ((a * 64 + b) % 4 == 0)) step(rng, (uint8_t)(((a + b) & 1) ? 71 : 66), true, 0);
+		}
+		g_grid = false;
 	}
 	if (part == "rcpnoop" || part == "all") { // IMUL_RCP with every no-op divisor (0 and all powers of two) on every destination register
 		g_useForceImm = true;
